@@ -160,6 +160,7 @@ def main(chk, replay=None):
         ch = render_ch(f)
         kw = dict(channels=ch, nbins=render_arg(nb, lambda v: None if v == [] else v[0]), scale=render_arg(sc, str))
         kw.update(OVR[ov])
+        args_before = repr((kw['channels'], kw['nbins'], kw['scale']))
         try:
             with warnings.catch_warnings():
                 warnings.simplefilter('ignore')
@@ -168,7 +169,9 @@ def main(chk, replay=None):
         except Exception as e:  # noqa
             r, obs = None, 'raises:' + type(e).__name__
         lab = None
-        if fp(x) != before:
+        if repr((kw['channels'], kw['nbins'], kw['scale'])) != args_before:
+            lab = 'caller-argument-list-changed'
+        elif fp(x) != before:
             lab = 'sample-range-mutated'
             # put the range back so that later scenarios see the documented state
             W.update(world())
